@@ -137,7 +137,18 @@ def corpus(tier, seed):
             for s in blocs:
                 while sum(sup[b][s].values()) == 0:
                     sup[b][s] = {c: rng.choice(SMALL if rng.random() < 0.85 else WIDE) for c in base[s]}
-        inputs.append({"kind": "model", "model": model, "blocs": blocs, "sup": sup,
+        if nb >= 2 and rng.random() < 0.3:
+            # mirrored preferences: the second bloc holds the first bloc's support values in another assignment to the candidates, and every
+            # interval dictionary is written favourite first -- the *sequences of values* of two blocs then coincide although the intervals differ
+            for s_ in blocs:
+                vals = list(sup[blocs[0]][s_].values())
+                cs_ = list(sup[blocs[0]][s_])
+                rng.shuffle(cs_)
+                sup[blocs[1]][s_] = dict(zip(cs_, vals))
+            mirrored = True
+        else:
+            mirrored = False
+        inputs.append({"kind": "model", "by_value": mirrored, "model": model, "blocs": blocs, "sup": sup,
                        "coh": {b: dict(zip(blocs, [rat(x) for x in rng.choice(COH[nb])])) for b in blocs}, "fscale": rng.choice(SCALES)})
     # slate Bradley-Terry: 1 or 2 blocs, every cohesion k/4 and some others, slates of 1..4
     for _ in range(220 if q else 4000):
@@ -214,6 +225,8 @@ def call_work(inp):
         return iv
 
     def _mk(sup):
+        if inp.get("by_value"):
+            sup = dict(sorted(sup.items(), key=lambda kv: -kv[1]))          # written favourite first
         return PreferenceInterval({nm(c): (s * fs if fs != 1 else s) for c, s in sup.items()})
 
     def interval_trace(op, obj, slates, coh, W):
